@@ -139,8 +139,9 @@ def ob_uniform(fmt, which, ti, blanks, maxlen, timeout):
 
 
 def writer_kernels(fmt):
-    """field-rendering expressions of the real writer: every `"<template>" % ...` whose
-    argument contains exactly one utils.escapeQuotes(X) call, as a function of X"""
+    """field-rendering expressions of the real writer: every `"<template>" % ...`,
+    `"<template>".format(...)` or f-string that contains exactly one utils.escapeQuotes(X)
+    call, as a function of X"""
     import ast
     import copy
     import inspect
@@ -150,9 +151,12 @@ def writer_kernels(fmt):
     fdef = ast.parse(textwrap.dedent(inspect.getsource(func))).body[0]
     out = []
     for node in ast.walk(fdef):
-        if isinstance(node, ast.BinOp) and isinstance(node.op, ast.Mod) and isinstance(node.left, ast.Constant) and isinstance(node.left.value, str):
+        is_mod = isinstance(node, ast.BinOp) and isinstance(node.op, ast.Mod) and isinstance(node.left, ast.Constant) and isinstance(node.left.value, str)
+        is_fmt = isinstance(node, ast.Call) and isinstance(node.func, ast.Attribute) and node.func.attr == "format" and isinstance(node.func.value, ast.Constant) and isinstance(node.func.value.value, str)
+        is_fstr = isinstance(node, ast.JoinedStr)
+        if is_mod or is_fmt or is_fstr:
             new = copy.deepcopy(node)
-            calls = [c for c in ast.walk(new.right) if isinstance(c, ast.Call) and ast.unparse(c.func).endswith("escapeQuotes")]
+            calls = [c for c in ast.walk(new) if isinstance(c, ast.Call) and ast.unparse(c.func).endswith("escapeQuotes")]
             if len(calls) != 1:
                 continue
             calls[0].args = [ast.Name(id="__field__", ctx=ast.Load())]
@@ -375,7 +379,7 @@ def ob_partition_ieee(k, timeout):
 
 
 def ob_anchor_error(name, msg):
-    return Ob(name + "-anchor", [], lambda: True, kind="smt", smt=lambda: {"verdict": "ERROR", "detail": msg}, timeout=30, funcs=FUNCS[1:3], bounds="AST anchor check")
+    return not_encoded(name, msg, FUNCS[1:3])
 
 
 def obligations(tier):
